@@ -6,6 +6,8 @@ pub const TOKENS: &[&str] = &[
     "&&", "=", "+=", "in", "++", "not", "AND",
     // lexical errors as tokens: a quote that opens an unterminated string, a malformed number
     "'", "1e5",
+    // a string literal whose text is a closing delimiter
+    "')'",
 ];
 
 /// sub-alphabet that keeps every delimiter and separator
